@@ -94,6 +94,12 @@ def op_variant(m, sg, op):
         if (ins[0].type == TT.FLOAT32 and t.type in (TT.INT8, TT.INT4) and qz is not None and qz.scale is not None and len(qz.scale) == 1
                 and t.shape is not None and len(t.shape) == 4 and int(t.shape[3]) > 1):
             var.append("hybrid-tensorwise")
+    if name in ("CONV_2D", "DEPTHWISE_CONV_2D", "TRANSPOSE_CONV", "FULLY_CONNECTED") and len(ins) > 1 and ins[1] is not None:
+        # finding D39: a weight operand that is a RUNTIME tensor (no buffer contents) stored as an integer was quantized like an activation
+        # (asymmetric per-tensor int8 / int16), which the integer kernels of these operators do not take
+        t = ins[1]
+        if m.buffers[t.buffer].data is None and t.type in (TT.INT8, TT.INT16):
+            var.append("runtime-weight-int8" if t.type == TT.INT8 else "runtime-weight-int16")
     for t in ins:
         if t is None or t.type not in (TT.INT32, TT.INT64) or m.buffers[t.buffer].data is None:
             continue
@@ -356,6 +362,10 @@ def compare_static(ctx, interp, case, res, fail, max_ops=4):
     if "srq" not in modes:
         return
     nops = max(len(sg["ops"]) for sg in case.info["subgraphs"])
+    if "runtime_weight" in case.info.get("tags", ()):
+        # the weight operand is a second quantized ACTIVATION: its rounding error enters the result like that of one more operator, and
+        # the 'float model with the dequantized constants' has no dequantized weight to account for it
+        nops += 2
     if nops > max_ops:
         return
     data = {k: v[:1] for k, v in case.data.items()}
@@ -389,6 +399,17 @@ def compare_static(ctx, interp, case, res, fail, max_ops=4):
                     qt_ = pl.quant_tuple(sg_.tensors[o_])
                     if qt_:
                         fixed_step = max(fixed_step, float.fromhex(qt_["scale"][0]))
+    # the 16-bit kernels of GELU / TANH / LOGISTIC evaluate a 512-cell piecewise-linear table over the WHOLE range of their input tensor
+    # (cell = 128 input steps), its entries clipped to the output range: data that occupy a fraction of one cell (an input tensor with a
+    # FIXED range, e.g. the output of an int16 TANH, holding tiny values) come out with an error of up to min(output range, cell width)
+    lut_floor = 0.0
+    for sg_ in mo.subgraphs:
+        for op_ in sg_.operators:
+            if pl.BO_NAME.get(mo.operatorCodes[op_.opcodeIndex].builtinCode) in ("GELU", "TANH", "LOGISTIC") and len(op_.inputs) and len(op_.outputs):
+                ti_, to_ = sg_.tensors[op_.inputs[0]], sg_.tensors[op_.outputs[0]]
+                qi_, qo_ = pl.quant_tuple(ti_), pl.quant_tuple(to_)
+                if ti_.type == TT.INT16 and qi_ and qo_:
+                    lut_floor += min(32767 * float.fromhex(qo_["scale"][0]), 128 * float.fromhex(qi_["scale"][0]))
     for sig in a[1]:
         sd = [x for x in (mo.signatureDefs or []) if x.signatureKey.decode() == sig]
         for oi, (ra, rb) in enumerate(zip(a[1][sig], b[1][sig])):
@@ -416,7 +437,7 @@ def compare_static(ctx, interp, case, res, fail, max_ops=4):
                                 step = float.fromhex(qt["scale"][0])
                 ymag = float(np.max(np.abs(yb)))
                 mag = max(ymag, amag.get((sig, k), 0.0))
-                tol = 8 * step + 2 * fixed_step * nops + c_float * mag * nops + 1e-3 * mag + 1e-7
+                tol = 8 * step + 2 * fixed_step * nops + lut_floor + c_float * mag * nops + 1e-3 * mag + 1e-7
                 err = float(np.max(np.abs(ya - yb))) if ya.shape == yb.shape else float("inf")
                 off = err > tol
                 which = "float output"
@@ -426,18 +447,19 @@ def compare_static(ctx, interp, case, res, fail, max_ops=4):
                         # every quantized tensor is clipped to the range calibrated on the FLOAT model, so the integer model may sit
                         # anywhere between the two float models: allow their distance D on top of the activation-only term
                         dist = float(np.max(np.abs(yc - yb)))
-                        tol_r = 8 * step + 2 * fixed_step * nops + c_ref * mag * nops + dist + 1e-3 * mag + 1e-7
+                        tol_r = 8 * step + 2 * fixed_step * nops + lut_floor + c_ref * mag * nops + dist + 1e-3 * mag + 1e-7
                         err_r = float(np.max(np.abs(ya - yc)))
                         if err_r > tol_r:
                             off, err, tol, which = True, err_r, tol_r, "output of the float model with the dequantized constants"
                 const = np.ptp(yb) > 0.5 * ymag and ymag > 0 and np.ptp(yb) > 16 * max(step, fixed_step) and step > 0 and yb.size > 1 and np.ptp(ya) == 0
                 if const and c[0] == "ok":
                     yc_ = np.asarray(c[1][sig][oi][k], dtype=np.float64)
-                    if yc_.shape == ya.shape and np.ptp(yc_) == 0:
-                        const = False   # the float model with the stored constants is constant too (weights below the resolution floor)
+                    if yc_.shape == ya.shape and np.ptp(yc_) <= 16 * max(step, fixed_step):
+                        const = False   # the float model with the stored constants is constant too, up to the output resolution (the stored
+                        #                 4-bit weights moved the operand into the flat tail of the activation function)
                 if off or const:
                     cls = localise(interp, res["out"], ref if (c[0] == "ok" and which != "float output") else case.mb, data,
-                                   lambda mag_: (c_ref if which != "float output" else c_float) * mag_ + 8 * step + 1e-3 * mag_ + 1e-7, ctx, constant=const)
+                                   lambda mag_: (c_ref if which != "float output" else c_float) * mag_ + 8 * step + 2 * fixed_step + lut_floor + 1e-3 * mag_ + 1e-7, ctx, constant=const)
                     if cls is None:   # deviation below the localisation tolerance everywhere: blame the output's own producer
                         cls = producer_class(res["out"], sig, k)
                     if cls is None or ":" not in cls:
